@@ -53,7 +53,7 @@ def run(ctx):
     for case, rng in ctx.cases(total):
         conv = CONVENTIONS[case % len(CONVENTIONS)]
         spec = {'case': case, 'convention': conv}
-        ctx.run_case(spec, one_dataset, obs, rng, conv, spec)
+        ctx.run_case(spec, one_dataset, obs, rng, conv, spec, ctx.workdir)
 
 
 def close(a, b, tol):
@@ -68,9 +68,11 @@ def close(a, b, tol):
     return True
 
 
-def one_dataset(obs, rng, conv, spec):
+def one_dataset(obs, rng, conv, spec, workdir=None):
     model = make_dressed(rng, conv, dress=dict(per_kind=(1, 2), nongrid=1))
-    ds = model.encode()
+    ds, source = model.materialise(rng, workdir)
+    obs.cls('source:' + source)
+    spec['source'] = source
     with quiet_warnings():
         ems = obs.call('dataset.ems', lambda: ds.ems)
         if isinstance(ems, Failed):
@@ -131,6 +133,21 @@ def one_dataset(obs, rng, conv, spec):
             obs.expect(close(gc, mc, ctol), 'face centre n belongs to cell n', lambda: {'n': n, 'got': gc, 'want': mc}, mech='centre-order')
             if want is not None and not model.derived_geometry and is_convex(model.cells[n]):
                 obs.expect(want.buffer(1e-9).covers(Point(*gc)), 'face centre n lies in (convex) cell n', lambda: {'n': n, 'centre': gc})
+    # the deprecated-but-public spatial_index: items must carry the linear / native index of their polygon
+    if size <= 40 and rng.random() < 0.5:
+        import warnings
+        with warnings.catch_warnings():
+            warnings.simplefilter('ignore')
+            sidx = obs.call('spatial_index', lambda: ems.spatial_index)
+        if not isinstance(sidx, Failed):
+            obs.cls('spatial_index:checked')
+            items = list(sidx.items['data'])
+            live = [n for n in range(size) if polygons[n] is not None]
+            obs.expect([int(it.linear_index) for it in items] == live
+                       and all(tuple(it.index) == tuple(model.native(model.default_kind, int(it.linear_index))) for it in items)
+                       and all(it.polygon is polygons[int(it.linear_index)] or it.polygon.equals_exact(polygons[int(it.linear_index)], 0) for it in items),
+                       'spatial_index items name the linear and native index of their own polygon (holes keep their slot)',
+                       lambda: {'got': [int(it.linear_index) for it in items][:20], 'want': live[:20]}, mech='spatial-index-order')
     # flattened variables and selectors, on every kind
     flats = {}
     for name, var in model.variables.items():
@@ -139,7 +156,7 @@ def one_dataset(obs, rng, conv, spec):
         flat = obs.call('ravel', ems.ravel, ds[name])
         if isinstance(flat, Failed):
             continue
-        want = var.typed(var.canon)
+        want = var.expected(var.canon, source)
         obs.expect(tuple(flat.dims[:-1]) == var.extra_dims and nan_equal(flat.values, want),
                    'position n of the flattened variable holds the value of cell n',
                    lambda: {'var': name, 'dims': var.dims, 'got': flat.values, 'want': want}, mech='ravel-order')
@@ -174,3 +191,5 @@ def one_dataset(obs, rng, conv, spec):
                 obs.sample({'convention': conv, 'kind': kname, 'shape': kind.shape, 'n': n, 'native': repr(native),
                             'variable': names[0], 'dims': model.variables[names[0]].dims,
                             'selected values': sel[names[0]].values.ravel()[:4], 'holes': holes[:6]})
+    if source == 'disk':
+        ds.close()
